@@ -185,7 +185,8 @@ func run(c *core.Ctx) {
 	c.Assume("gRPC designs need protoc: a stand-in protoc is used when present (see C10)")
 	c.Note("deep_families", spec.DeepShapesDoc+" | "+spec.DeepValidationDoc)
 	c.Note("http_level_families", spec.HTTPValidationDoc+" | "+spec.StreamValidationDoc)
-	for _, f := range append(append(families.All(c.Thorough()), families.Deep(c.Thorough())...), families.HTTPLevel(c.Thorough())...) {
+	c.Note("operation_sequence_family", families.OpSequencesDoc)
+	for _, f := range append(append(append(families.All(c.Thorough()), families.Deep(c.Thorough())...), families.HTTPLevel(c.Thorough())...), families.OpSequences()) {
 		if only := os.Getenv("VERIF_FAMILY"); only != "" && !strings.HasPrefix(f.Name, only) {
 			c.Incomplete("restricted to family " + only + " by VERIF_FAMILY (development aid)")
 			continue
